@@ -142,11 +142,17 @@ def parse_cbmc(text):
     # split on lines starting with '[' to cope with multi-line descriptions
     cur = None
     entries = []
+    files = []
+    cur_file = None
     for line in body.splitlines():
+        mfile = re.match(r'^(\S+) function (.*)$', line)
+        if mfile and not line.startswith('['):
+            cur_file = mfile.group(1)
         if line.startswith('['):
             if cur is not None:
                 entries.append(cur)
             cur = line
+            files.append(cur_file)
         elif cur is not None:
             if line.startswith('** ') or line.startswith('VERIFICATION') or line == '' or ' function ' in line and not line.startswith(' '):
                 entries.append(cur)
@@ -155,14 +161,16 @@ def parse_cbmc(text):
                 cur += '\n' + line
     if cur is not None:
         entries.append(cur)
-    for e in entries:
+    for idx, e in enumerate(entries):
         m = RES_RE.match(e)
         if not m:
             continue
         name, line, desc, status = m.groups()
+        desc = re.sub(r'^\[KANI_CHECK_ID_[^\]]*\] ', '', desc)
         parts = name.rsplit('.', 2)
         cls = parts[1] if len(parts) == 3 else ''
         out['props'].append({'name': name, 'class': cls, 'line': int(line) if line else None,
+                             'file': files[idx] if idx < len(files) else None,
                              'desc': desc.strip(), 'status': status})
     st = out['stats']
     m = re.search(r'size of program expression: (\d+) steps', text)
@@ -317,7 +325,7 @@ def verify_harness(h, rundir, cap_s, mem_gb, unwindset=None, extra=None, recursi
             res.update(status='oom' if oom else 'error', detail='cbmc rc=%s, no verdict' % rc)
         else:
             res['status'] = status
-            res['failures'] = [{'name': f['name'], 'line': f['line'], 'desc': f['desc'][:300]} for f in fails[:20]]
+            res['failures'] = [{'name': f['name'], 'file': f.get('file'), 'line': f['line'], 'desc': f['desc'][:300]} for f in fails[:20]]
     res['wall_s'] = round(time.time() - t0, 1)
     # keep the log only when something went wrong
     if res['status'] == 'ok':
